@@ -9,6 +9,7 @@ pub mod c06;
 pub mod c07;
 pub mod c08;
 pub mod c09;
+pub mod c10;
 pub mod c11;
 pub mod c12;
 pub mod c13;
@@ -27,6 +28,7 @@ pub fn lookup(id: &str) -> Option<&'static dyn Property> {
         "C07" => Some(&c07::C07),
         "C08" => Some(&c08::C08),
         "C09" => Some(&c09::C09),
+        "C10" => Some(&c10::C10),
         "C11" => Some(&c11::C11),
         "C12" => Some(&c12::C12),
         "C13" => Some(&c13::C13),
